@@ -112,7 +112,7 @@ Proof.
     + unfold union_simplified in H. rewrite Esu, Eu in H. discriminate H.
 Qed.
 
-(* C11, second half: from_specifier yields an atom that evaluates true exactly on the final versions the specifier admits *)
+(* C11, second half: from_specifier yields an atom that evaluates true exactly on the final versions the specifier accepts *)
 Theorem back_sound name s : canon s -> simp_ok s -> Forall tilde_safe (ranges_of s) ->
   forall res, from_specifier name s = Ret res ->
   match res with
